@@ -312,6 +312,15 @@ def run_spec(spec):
     ref = Model(**seed_kwargs(form, spec["seed"]))
     reseed_ok = ([model.random.random() for _ in range(4)] == [ref.random.random() for _ in range(4)]
                  and model.rng.random(4).tolist() == ref.rng.random(4).tolist())
+    # the same for a plain Model under every seed / rng form
+    for f in ("seed", "rng_int", "rng_seq", "rng_gen"):
+        m1 = Model(**seed_kwargs(f, spec["seed"]))
+        first = ([m1.random.random() for _ in range(3)], m1.rng.random(3).tolist())
+        m1.reset_randomizer()
+        m1.reset_rng()
+        again = ([m1.random.random() for _ in range(3)], m1.rng.random(3).tolist())
+        if first != again:
+            reseed_ok = False
     py1, np1 = random.getstate(), np.random.get_state()
     return {
         "digests": digs,
